@@ -206,6 +206,14 @@ class Recorder(object):
                         self.fail_next -= 1
                         raise OSError('injected archive write failure')
 
+                fail_read_next = 0
+
+                def __getitem__(self, k):
+                    if self.fail_read_next > 0:
+                        self.fail_read_next -= 1
+                        raise OSError('injected archive read failure')
+                    return base.__getitem__(self, k)
+
                 def __setitem__(self, k, v):
                     self._maybe_fail()
                     base.__setitem__(self, k, v)
@@ -374,6 +382,8 @@ class Recorder(object):
     # ---- operations -----------------------------------------------------------------------
     def _emit(self, ev, mark):
         new = stubs.LOG[mark:]
+        if '_own' in ev:
+            new = new[:ev.pop('_own')]
         evs = []
         for (name, x, y) in new:
             a = ev.get('a')
@@ -508,6 +518,28 @@ class Recorder(object):
                 ent = self.args[o['a'] - 1]
                 a, kw = ent['args'], ent['kw']
                 stubs.LAST_EXC[0] = None
+                ev.pop('rfault', None)
+                if o.get('rfault') and self.events:
+                    # a one-shot READ failure of the bound archive, armed only when this call would be answered from the
+                    # archive (its key is archived and not resident): the event is then tagged "rfault"
+                    c = f.__cache__()
+                    prev = self.events[-1]
+                    k = self.bindings.index(ent['cls']) + 1 if ent['kind'] != 'unkey' else None
+                    cur = prev['cur'][i - 1]
+                    if k is not None and cur and hasattr(c.archive, 'fail_read_next') and c.archived() \
+                            and prev['mem'][i - 1][k - 1] == 0 and prev['archs'][cur - 1][k - 1] != 0:
+                        c.archive.fail_read_next = 1
+                        ev['rfault'] = True
+                if o.get('nest'):
+                    # recursion: while f(a) is being evaluated the wrapped function calls the decorated function again;
+                    # every nested call completes - and is recorded - before this one
+                    nest = list(o['nest'])
+                    ev.pop('nest')
+
+                    def during():
+                        for n in nest:
+                            self.op(dict(n, op='call', i=i))
+                    stubs.DURING[0] = during
                 if o.get('snap'):
                     # dill round trip taken by ANOTHER thread while this call is inside the wrapped function:
                     # the clone event is emitted first (state as observed at that moment), then this call's event
@@ -517,6 +549,12 @@ class Recorder(object):
                     ev['ret'] = self.ret_code(o['a'], r)
                 except BaseException as e:
                     ev['exc'] = 'same' if e is stubs.LAST_EXC[0] else type(e).__name__
+                if ev.get('rfault'):
+                    f.__cache__().archive.fail_read_next = 0
+                if o.get('nest'):
+                    pending, stubs.DURING[0] = stubs.DURING[0], None
+                    if pending is None:
+                        ev['_own'] = 1           # this call's own evaluation is the first one logged since `mark`
                 if o.get('snap'):
                     pending, stubs.DURING[0] = stubs.DURING[0], None
                     ev.pop('snap')
